@@ -829,6 +829,28 @@ func (env *specEnv) evalCall(x *SCall) TV {
 			env.fail("fnid: no function %s", ts.V)
 		}
 		return TV{T: u.fnID(ts.V), Sort: "Int"}
+	case "visited": // visited(k): the current map range (the last one started in this function) has produced key k
+		argn(1)
+		if env.fr == nil || env.fr.lastMapRange == "" {
+			env.fail("visited() without a range over a map")
+		}
+		a := env.eval(x.Args[0])
+		kt := a.T
+		if a.Sort == "Str" {
+			kt = app("skey", a.T)
+		}
+		return TV{T: app("select", app("select", env.heap("ITV|"+env.fr.lastMapRangeKS), env.fr.lastMapRange), kt), Sort: "Bool"}
+	case "rangedom0": // rangedom0(k): k was a key of the ranged map when the iteration started
+		argn(1)
+		if env.fr == nil || env.fr.lastMapRange == "" {
+			env.fail("rangedom0() without a range over a map")
+		}
+		a := env.eval(x.Args[0])
+		kt := a.T
+		if a.Sort == "Str" {
+			kt = app("skey", a.T)
+		}
+		return TV{T: app("select", env.fr.lastMapDom0, kt), Sort: "Bool"}
 	case "rangepos": // byte position of the (last) string range iterator of this function
 		argn(0)
 		if env.fr == nil || env.fr.lastRange == "" {
@@ -879,6 +901,44 @@ func (env *specEnv) evalCall(x *SCall) TV {
 		argn(1)
 		a := env.eval(x.Args[0])
 		return TV{T: app("b2i", a.T), Sort: "Int"}
+	case "band", "bor", "bxor": // Go's &, |, ^ on integers (uninterpreted, the same symbols the translation uses)
+		argn(2)
+		a := env.eval(x.Args[0])
+		b := env.eval(x.Args[1])
+		name := map[string]string{"band": "bit_and", "bor": "bit_or", "bxor": "bit_xor"}[x.Fn]
+		u.global(fmt.Sprintf("(declare-fun %s (Int Int) Int)", name))
+		return TV{T: app(name, a.T, b.T), Sort: "Int"}
+	case "pow": // math.Pow (uninterpreted, the symbol of the handler)
+		argn(2)
+		a := env.eval(x.Args[0])
+		b := env.eval(x.Args[1])
+		u.global("(declare-fun rpow (Real Real) Real)")
+		at, bt := a.T, b.T
+		if a.Sort == "Int" {
+			at = app("to_real", at)
+		}
+		if b.Sort == "Int" {
+			bt = app("to_real", bt)
+		}
+		return TV{T: app("rpow", at, bt), Sort: "Real"}
+	case "prefixof", "suffixof": // strings.HasPrefix(s, p) / HasSuffix(s, p) for non-literal p (symbols of the handlers)
+		argn(2)
+		a := env.eval(x.Args[0])
+		b := env.eval(x.Args[1])
+		name := map[string]string{"prefixof": "str_hasprefix", "suffixof": "str_hassuffix"}[x.Fn]
+		// (over canonical keys: the result depends on the contents only)
+		u.global(fmt.Sprintf("(declare-fun %s (Int Int) Bool)", name))
+		return TV{T: app(name, app("skey", a.T), app("skey", b.T)), Sort: "Bool"}
+	case "concat": // concat(a, b): the string a + b (same symbols as the translation of +)
+		argn(2)
+		a := env.eval(x.Args[0])
+		b := env.eval(x.Args[1])
+		u.global("(declare-fun kcat (Int Int) Int)")
+		r := app("sconcat", a.T, b.T)
+		if !env.inQuant {
+			env.fc.sc.assume(fmt.Sprintf("(and (= (skey %s) (kcat (skey %s) (skey %s))) (= (slen %s) (+ (slen %s) (slen %s))))", r, a.T, b.T, r, a.T, b.T))
+		}
+		return TV{T: r, Sort: "Str", Typ: types.Typ[types.String]}
 	case "trunc": // trunc(x): Go's int(x) for a float x
 		argn(1)
 		a := env.eval(x.Args[0])
